@@ -73,6 +73,23 @@ CHECKS = {
               "flags are truthful; [O] residual threshold 1e-5"),
         technique="TLA+ state machine with exact Gram-Schmidt checked by TLC; behaviour replay on LDAWrapper with a counting inner solver",
         design="9/C06"),
+    "C03": dict(
+        text=("Lifecycle.tla is a version/taint model of everything that survives between calls on a network (output "
+              "states, factorisations and LDAS databases, stored solutions used as initial guess, eigen shift-invert and "
+              "per-mode adjoint solvers, overhang layer maxima, the ledger of sensitivity contributions since the last "
+              "reset). TLC checks NoStale (a clean cycle after a reset uses nothing computed for another input), "
+              "StatesCurrent, ResetClean and NoSeedNoChange over all protocol-respecting histories to depth 8/10 and refutes "
+              "the stale-cache and reset-keeps variants. Every history to a small depth, every optimisation-loop-shaped "
+              "history (>= 2 cycles) and simulated long ones are replayed on eight network templates that contain every "
+              "caching component of the property (LinSolve direct+LDAS and CG+multigrid with 2 rhs, SystemOfEquations, "
+              "StaticCondensation, dense and sparse EigenSolve with eigenvector seeds, OverhangFilter, aggregation with "
+              "undamped scaling and active set); wherever the specification says states are valid / sensitivities are "
+              "clean, all signal states and sensitivities are compared with a freshly built identical network evaluated "
+              "once; Reset must leave nothing, Sens without seed must change nothing."),
+        note=(TLC_BASE + "; the matrix class is constant per template; tolerances 1e-8..1e-9 (direct) and 1e-5..1e-6 "
+              "(CG / ARPACK); documented memories (Scaling, damped AggScaling, writer counters) excluded"),
+        technique="TLA+ version/taint model checked by TLC; replay of emitted call histories against a freshly built network",
+        design="9/C03"),
 }
 
 
